@@ -29,9 +29,13 @@ type cresp struct {
 	Protocol   string `json:"protocol"`
 	Exts       string `json:"exts"`
 	Cut        bool   `json:"cut"`
-	VerForm    int    `json:"verForm"`
-	Veto       bool   `json:"veto"` // the response carries X-Veto, which the dialer's OnHeader callback refuses
-	statusTok  string
+	// CutAt > 0: the byte stream ends (EOF, or a transport error when CutErr) after that many bytes of
+	// the response head; Cut says whether that really was before the end of the head
+	CutAt     int  `json:"cutAt"`
+	CutErr    bool `json:"cutErr"`
+	VerForm   int  `json:"verForm"`
+	Veto      bool `json:"veto"` // the response carries X-Veto, which the dialer's OnHeader callback refuses
+	statusTok string
 }
 
 var statusTokens = map[string][]string{
@@ -56,6 +60,7 @@ type peerConn struct {
 	ci       int
 	trailing []byte
 	served   int
+	endErr   error
 }
 
 func (p *peerConn) Write(b []byte) (int, error) { p.req.Write(b); return len(b), nil }
@@ -65,6 +70,9 @@ func (p *peerConn) Read(b []byte) (int, error) {
 		p.resp = append(p.build(h.first("Sec-WebSocket-Key")), p.trailing...)
 	}
 	if p.pos >= len(p.resp) {
+		if p.endErr != nil {
+			return 0, p.endErr
+		}
 		return 0, io.EOF
 	}
 	k := len(b)
@@ -147,6 +155,13 @@ func (r *cresp) render(rng *rand.Rand, key string, reqProtos []string, reqExts [
 		}
 	case "foreign":
 		lines = append(lines, "Sec-WebSocket-Protocol: never-asked")
+	case "reqforeign": // a requested one and, on a line of its own, one that was never requested (either order)
+		if len(reqProtos) > 0 {
+			lines = append(lines, "Sec-WebSocket-Protocol: "+reqProtos[rng.Intn(len(reqProtos))])
+		}
+		lines = append(lines, "Sec-WebSocket-Protocol: never-asked")
+	case "foreignlist": // both in one header value
+		lines = append(lines, "Sec-WebSocket-Protocol: "+strings.Join(append(append([]string(nil), reqProtos[:1]...), "never-asked"), ", "))
 	}
 	switch r.Exts {
 	case "offered":
@@ -272,6 +287,14 @@ func c10(c *ctx) {
 			var head []byte
 			head, sentProto, sentExts = r.render(rng, k, d.Protocols, reqExts)
 			headLen = len(head)
+			if r.CutAt > 0 && r.CutAt < len(head) {
+				head, headLen = head[:r.CutAt], r.CutAt
+				r.Cut = true
+				pc.trailing = nil
+				if r.CutErr {
+					pc.endErr = vh.ErrInjected
+				}
+			}
 			return head
 		}
 		u, _ := url.Parse("ws://example.com/path")
@@ -352,7 +375,7 @@ func c10(c *ctx) {
 	for _, up := range []string{"absent", "ok", "varied", "dup", "wrong"} {
 		for _, co := range []string{"absent", "ok", "varied", "dup", "wrong"} {
 			for _, ac := range []string{"absent", "ok", "varied", "dup", "otherkey", "short", "lowbits", "casefold", "padded"} {
-				for _, pr := range []string{"none", "requested", "foreign"} {
+				for _, pr := range []string{"none", "requested", "foreign", "reqforeign", "foreignlist"} {
 					for _, ex := range []string{"none", "offered", "offeredparams", "foreign", "mixed", "offered2", "mixedrev", "mixedmid"} {
 						k++
 						if false {
@@ -369,6 +392,24 @@ func c10(c *ctx) {
 						}
 					}
 				}
+			}
+		}
+	}
+	// a good response whose byte stream ends at every offset inside the head (at line boundaries after
+	// all required headers have gone by, inside a line, after the lone CR of the blank line ...)
+	for ci, cr := range []cresp{
+		{Proto: "1.1", Status: "101", Upgrade: "ok", Connection: "ok", Accept: "ok", Protocol: "requested", Exts: "offeredparams"},
+		{Proto: "1.1", Status: "101", Upgrade: "varied", Connection: "ok", Accept: "ok", Protocol: "none", Exts: "none"},
+		{Proto: "1.2", Status: "101", Upgrade: "ok", Connection: "varied", Accept: "ok", Protocol: "requested", Exts: "offered2"},
+	} {
+		for at := 1; at < 330; at++ {
+			if !c.thorough && at < 90 && at%4 != 0 {
+				continue // (the required headers cannot all have gone by that early)
+			}
+			for rep := 0; rep < 2; rep++ { // (the header order is drawn from the key)
+				r := cr
+				r.CutAt, r.CutErr = at, (at+rep)%2 == 0
+				respCase(fmt.Sprintf("cut/%d/%d/%d", ci, at, rep), r)
 			}
 		}
 	}
@@ -391,6 +432,11 @@ func c10(c *ctx) {
 		{"ws://example.com/p", "front.example", "example.com:80", "", "/p", "front.example"},
 		{"wss://example.com/p", "front.example:444", "example.com:443", "example.com", "/p", "front.example:444"},
 		{"ws://example.com?only=query", "example.com", "example.com:80", "", "/?only=query", ""},
+		// an empty port (RFC 3986: port = *DIGIT) means the scheme's default port
+		{"ws://example.com:/x", "example.com:", "example.com:80", "", "/x", ""},
+		{"wss://example.com:/x", "example.com:", "example.com:443", "example.com", "/x", ""},
+		{"ws://[::1]:/x", "[::1]:", "[::1]:80", "", "/x", ""},
+		{"wss://[2001:db8::1]:/", "[2001:db8::1]:", "[2001:db8::1]:443", "[2001:db8::1]", "/", ""},
 	}
 	prevKey := ""
 	for ci, dc := range cases {
